@@ -153,3 +153,11 @@ pub open spec fn esafe(e: Expression) -> bool
 }
 pub assume_specification [BinOp::token] (b: &BinOp) -> (r: &TokenReference) ensures *r == binop_tok(*b);
 pub assume_specification [UnOp::token] (b: &UnOp) -> (r: &TokenReference) ensures *r == unop_tok(*b);
+
+// the comments an operator token carries in front of / behind itself and those in front of an expression (what the
+// leading_comments() / trailing_comments() methods of the trivia traits return), and the trivia lists of an operator
+pub uninterp spec fn binop_lead_comments(b: BinOp) -> Seq<Token>;
+pub uninterp spec fn binop_trail_comments(b: BinOp) -> Seq<Token>;
+pub uninterp spec fn expr_lead_comments(e: Expression) -> Seq<Token>;
+pub uninterp spec fn binop_lead_trivia(b: BinOp) -> Seq<Token>;
+pub uninterp spec fn binop_trail_trivia(b: BinOp) -> Seq<Token>;
